@@ -29,7 +29,7 @@ type WindowRes struct {
 	Sample  []string
 }
 
-func runWindow(seed uint64, cas int, tier string) *WindowRes {
+func runWindow(seed uint64, cas int, tier string, prop string) *WindowRes {
 	res := &WindowRes{Keys: map[string]bool{}}
 	type wcase struct {
 		aop    func(w map[string][]byte) *Op
@@ -60,7 +60,7 @@ func runWindow(seed uint64, cas int, tier string) *WindowRes {
 					continue
 				}
 				childLog("window A=%s script=%d gate=%d", aops[ai].name, sc, gate)
-				oneWindow(seed, aops[ai].name, aops[ai].f, sc, gate, res)
+				oneWindow(seed, aops[ai].name, aops[ai].f, sc, gate, res, prop)
 				if len(res.Viol) > 0 {
 					return res
 				}
@@ -70,7 +70,7 @@ func runWindow(seed uint64, cas int, tier string) *WindowRes {
 	return res
 }
 
-func oneWindow(seed uint64, aname string, aop func(map[string][]byte) *Op, script, gate int, res *WindowRes) {
+func oneWindow(seed uint64, aname string, aop func(map[string][]byte) *Op, script, gate int, res *WindowRes, prop string) {
 	viol := func(class, f string, a ...interface{}) {
 		if len(res.Viol) < 6 {
 			res.Viol = append(res.Viol, Violation{Class: class, Msg: fmt.Sprintf("window [A = %s, script %d, parked at abort #%d]: ", aname, script, gate) + fmt.Sprintf(f, a...)})
@@ -256,6 +256,12 @@ func oneWindow(seed uint64, aname string, aop func(map[string][]byte) *Op, scrip
 		viol("cache", "%s\nhistory:\n%s", joinLines(fr.CacheErrs[:minInt(4, len(fr.CacheErrs))]), renderHistory(hist))
 	}
 	got, werr := walkTree(srv.API, srv.Root, nil)
+	if prop == "C13" {
+		ms, _ := enumAfterHistory(srv.API, got)
+		for _, m := range ms {
+			res.Viol = append(res.Viol, Violation{Class: "enum", Msg: fmt.Sprintf("window [A = %s, script %d, parked at abort #%d]: %s\nhistory:\n%s", aname, script, gate, m, renderHistory(hist))})
+		}
+	}
 	for _, m := range werr.Msgs {
 		viol("lin", "final walk: %s", m)
 	}
